@@ -21,6 +21,7 @@ EXPLANATION = (
     "into the result equal the ids sensors() yields on the final flags; (R2) for every state and refusal pattern of optional blocks the "
     "first or the second call returns; (R3) ES: sensors() and read_runtime_data() use the same table. Nothing about the methods is "
     "frozen. That real firmware refuses what the oracle refuses is assumed."
+    " (R4) if sensors() remembers its result, every method that changes an attribute it reads (other than the memo's key) drops the memo on every path."
 )
 
 
